@@ -149,6 +149,36 @@ impl Run {
         eprintln!("  violation [{}]: {}", sig, what);
     }
 
+    /// Fold another run of the same property (a concurrently executed part)
+    /// into this one.
+    pub fn merge(&mut self, o: Run) {
+        self.states += o.states;
+        self.transitions += o.transitions;
+        self.traces_validated += o.traces_validated;
+        self.evaluations += o.evaluations;
+        self.distinct.extend(o.distinct);
+        for (k, v) in o.outcomes {
+            *self.outcomes.entry(k).or_insert(0) += v;
+        }
+        for s in o.samples {
+            self.sample(s);
+        }
+        for (k, v) in o.bounds {
+            self.bounds.insert(k, v);
+        }
+        for (k, v) in o.extra {
+            self.extra.insert(k, v);
+        }
+        self.exhaustive &= o.exhaustive;
+        if self.capped.is_none() {
+            self.capped = o.capped;
+        }
+        self.violations += o.violations;
+        self.known += o.known;
+        self.seen_sigs.extend(o.seen_sigs);
+        self.machinery_errors.extend(o.machinery_errors);
+    }
+
     pub fn finish(mut self) -> i32 {
         let wall = self.elapsed();
         if self.replay_mode {
